@@ -2577,8 +2577,14 @@ def unroll_constant_tables(repo, ref):
                         if isinstance(s_, ast.Try) and any(own_jumps(h.body) for h in s_.handlers):
                             return True
                     return False
+                search = False
                 if own_jumps(st.body):
-                    continue
+                    # for row in TABLE: if T(row): B(row); break      - a search: the first row whose test holds runs its body
+                    if len(st.body) == 1 and isinstance(st.body[0], ast.If) and not st.body[0].orelse and st.body[0].body and isinstance(st.body[0].body[-1], ast.Break) \
+                            and not own_jumps(st.body[0].body[:-1]) and not prelude and len(rows) <= 12:
+                        search = True
+                    else:
+                        continue
                 if any(isinstance(x, ast.Name) and x.id in names and isinstance(x.ctx, (ast.Store, ast.Del)) for x in inner):
                     continue
                 inner_ids = {id(x) for x in inner} | {id(x) for x in ast.walk(tg)}
@@ -2587,6 +2593,17 @@ def unroll_constant_tables(repo, ref):
                 if any(isinstance(x, (ast.Lambda, ast.FunctionDef)) for x in inner):
                     continue
                 fresh = []
+                if search:
+                    # if T(r1): B(r1)  elif T(r2): B(r2) ...   (a test is evaluated only when the earlier ones failed, as in the loop)
+                    chain = ""
+                    for k_, r in enumerate(rows):
+                        vals = [r] if isinstance(tg, ast.Name) else list(r.elts)
+                        mapping = {n: "(%s)" % ast.unparse(v) for n, v in zip(names, vals)}
+                        t_ = ast.unparse(_SubstNames(mapping).visit(ast.parse(ast.unparse(st.body[0].test), mode="eval").body))
+                        b_ = ast.unparse(_SubstNames(mapping).visit(ast.parse("\n".join(ast.unparse(s_) for s_ in st.body[0].body[:-1]) or "pass")))
+                        chain += "%s %s:\n%s\n" % ("if" if k_ == 0 else "elif", t_, "\n".join("    " + l_ for l_ in b_.splitlines()))
+                    fresh = ast.parse(chain).body
+                    rows = []
                 for r in rows:
                     vals = [r] if isinstance(tg, ast.Name) else list(r.elts)
                     mapping = {n: "(%s)" % ast.unparse(v) for n, v in zip(names, vals)}
@@ -2613,6 +2630,22 @@ def unroll_constant_tables(repo, ref):
                 _invalidate(owner)
                 done.setdefault(q, []).append(key[2])
         if q in done:
+            # if <constant>: A else: B   left behind by a table column of flags
+            again_ = True
+            while again_:
+                again_ = False
+                for owner, field, blk in _blocks(fi.node):
+                    for j, s_ in enumerate(blk):
+                        if isinstance(s_, ast.If) and isinstance(s_.test, ast.Constant) and isinstance(s_.test.value, bool):
+                            keep = s_.body if s_.test.value else s_.orelse
+                            for k_ in keep:
+                                k_._parent = owner
+                            blk[j:j + 1] = keep or [ast.copy_location(ast.Pass(), s_)]
+                            _invalidate(owner)
+                            again_ = True
+                            break
+                    if again_:
+                        break
             # setattr(x, "name", v) as a statement -> x.name = v   (not for names the compiler would mangle)
             for owner, field, blk in _blocks(fi.node):
                 for j, s_ in enumerate(blk):
@@ -2628,6 +2661,33 @@ def unroll_constant_tables(repo, ref):
                 if isinstance(c.func, ast.Name) and c.func.id == "getattr" and len(c.args) == 2 and not c.keywords and isinstance(c.args[1], ast.Constant) \
                         and isinstance(c.args[1].value, str) and c.args[1].value.isidentifier():
                     _install(c, ast.Attribute(value=c.args[0], attr=c.args[1].value, ctx=ast.Load()))
+            # t = <attribute chain>; t(...)   with t used nowhere but in such pairs (the handler picked from a table row)
+            ref_locals_ = {n for n, _ in ref[q]["locals"]} | set(ref[q]["params"])
+            for owner, field, blk in _blocks(fi.node):
+                j = 0
+                while j + 1 < len(blk):
+                    a_, b_ = blk[j], blk[j + 1]
+                    j += 1
+                    if not (isinstance(a_, ast.Assign) and len(a_.targets) == 1 and isinstance(a_.targets[0], ast.Name) and a_.targets[0].id not in ref_locals_
+                            and _chain(a_.value) is not None and isinstance(b_, ast.Expr) and isinstance(b_.value, ast.Call) and isinstance(b_.value.func, ast.Name)
+                            and b_.value.func.id == a_.targets[0].id):
+                        continue
+                    t_ = a_.targets[0].id
+                    if sum(1 for x in ast.walk(b_) if isinstance(x, ast.Name) and x.id == t_) != 1:
+                        continue
+                    # every other occurrence of t is part of such a pair as well
+                    pairs_ok = True
+                    for x in walk_own(fi.node):
+                        if isinstance(x, ast.Name) and x.id == t_:
+                            p_ = getattr(x, "_parent", None)
+                            if not ((isinstance(p_, ast.Assign) and p_.targets[0] is x) or (isinstance(p_, ast.Call) and p_.func is x and isinstance(getattr(p_, "_parent", None), ast.Expr))):
+                                pairs_ok = False
+                    if not pairs_ok:
+                        continue
+                    _install(b_.value.func, ast.parse(ast.unparse(a_.value), mode="eval").body)
+                    j -= 1
+                    del blk[j]
+                    _invalidate(owner)
     if done:
         _clear_analysis_caches()
     return done
